@@ -30,6 +30,7 @@ import (
 	"sync/atomic"
 	"time"
 
+	"github.com/codenotary/immudb/embedded/simhook"
 	"github.com/codenotary/immudb/embedded/tbtree"
 	"github.com/codenotary/immudb/embedded/watchers"
 	"github.com/prometheus/client_golang/prometheus"
@@ -456,6 +457,10 @@ func (idx *indexer) Pause() {
 }
 
 func (idx *indexer) doIndexing() {
+	if simhook.Enabled {
+		simhook.GoStart("indexer")
+		defer simhook.GoEnd()
+	}
 	committedTxID := idx.store.LastCommittedTxID()
 	idx.metricsLastCommittedTrx.Set(float64(committedTxID))
 
@@ -479,6 +484,9 @@ func (idx *indexer) doIndexing() {
 			idx.store.logger.Errorf("indexing failed at '%s' due to error: %v", idx.store.path, err)
 			errBackoff = nextIndexerErrBackoff(errBackoff)
 			time.Sleep(errBackoff)
+			if simhook.Enabled {
+				simhook.Yield("indexer-after-backoff")
+			}
 			erroredThisIter = true
 		}
 
@@ -510,6 +518,9 @@ func (idx *indexer) doIndexing() {
 			idx.store.logger.Errorf("indexing failed at '%s' due to error: %v", idx.store.path, err)
 			errBackoff = nextIndexerErrBackoff(errBackoff)
 			time.Sleep(errBackoff)
+			if simhook.Enabled {
+				simhook.Yield("indexer-after-backoff")
+			}
 			erroredThisIter = true
 		}
 
@@ -517,6 +528,9 @@ func (idx *indexer) doIndexing() {
 			idx.store.logger.Errorf("indexing failed at '%s' due to error: %v", idx.store.path, err)
 			errBackoff = nextIndexerErrBackoff(errBackoff)
 			time.Sleep(errBackoff)
+			if simhook.Enabled {
+				simhook.Yield("indexer-after-backoff")
+			}
 			erroredThisIter = true
 		}
 
@@ -536,7 +550,13 @@ func (idx *indexer) handleWriteStalling(err error) error {
 	}
 	// NOSONAR   (rand is fine here)
 	sleepTime := writeStallingSleepDurationMin + time.Duration(rand.Intn(int(writeStallingSleepDurationMax-writeStallingSleepDurationMin+1)))
+	if simhook.Enabled {
+		sleepTime = writeStallingSleepDurationMin + time.Duration(simhook.Intn(int(writeStallingSleepDurationMax-writeStallingSleepDurationMin+1), "write-stalling-sleep"))
+	}
 	time.Sleep(sleepTime)
+	if simhook.Enabled {
+		simhook.Yield("indexer-after-sleep")
+	}
 	return nil
 }
 
@@ -769,6 +789,10 @@ func (idx *indexer) indexSince(txID uint64) error {
 	}
 
 	var err error
+
+	if simhook.Enabled {
+		simhook.Yield("indexer-before-insert")
+	}
 
 	if indexableEntries == 0 {
 		// if there are no entries to be indexed, the logical time in the tree
